@@ -447,6 +447,13 @@ class World:
                     rec["src_op"] = pv[2]
                     if i > 0:
                         self.probe("probe.lower_tier_hit")
+                        for o in self.inflight.values():
+                            if o is not rec and o["key"] == k and o["kind"] in WRITE_KINDS:
+                                self.probe("probe.lower_tier_hit_while_write_in_flight")
+                                if o["kind"] == "put" and t._cache.get(key) != o["value"] and any(
+                                        e[1] == o["value"] for e in self.timeline[k]):
+                                    # cannot happen while put() drops the key from every tier when its backing write lands
+                                    self.count("lower_tier_hit_after_put_backing_write_landed")
                     break
         else:
             st = self.cache.stats
